@@ -54,18 +54,25 @@ class Sess:
     _cache: dict = {}
 
     @classmethod
-    def get(cls, addpath: bool, asn4: bool = True) -> Negotiated:
-        key = (addpath, asn4)
+    def get(cls, addpath: bool, asn4: bool = True, aigp: bool = False) -> Negotiated:
+        key = (addpath, asn4, aigp)
         if key not in cls._cache:
             _, n = sessions.make_config(families='all', add_path=addpath)
             _, p = sessions.make_config(local_as=65001, peer_as=65000, families='all', add_path=addpath, local_address='127.0.0.2', peer_address='127.0.0.1')
             if addpath:
                 n.capability.add_path = 3
                 p.capability.add_path = 3
+            if aigp:  # `capability { aigp enable; }`: AIGP (RFC 7311) is sent to and accepted from this eBGP peer
+                from exabgp.util.enumeration import TriState
+
+                n.capability.aigp = TriState.TRUE
+                p.capability.aigp = TriState.TRUE
             from exabgp.bgp.message.open.routerid import RouterID
 
             p.session.router_id = RouterID('2.2.2.2')
             neg = sessions.negotiate(n, p, asn4=asn4)
+            if bool(neg.aigp) != aigp:
+                raise RuntimeError(f'rig: aigp={neg.aigp} negotiated, wanted {aigp}')
             cls._cache[key] = neg
         return cls._cache[key]
 
@@ -297,10 +304,20 @@ def decode_attr_block(block: bytes, neg: Negotiated) -> AttributeCollection:
     return AttributeCollection.unpack(block, neg)
 
 
+_turn = [0]
+
+
+def other_session(code: int, asn4: bool, aigp: bool) -> Negotiated:
+    """A session of the same process that differs from the one under test in the parameter this attribute's
+    decoding looks at (AIGP: the aigp capability; everything else: the width of AS numbers)."""
+    return Sess.get(False, asn4, not aigp) if code == 26 else Sess.get(False, not asn4, aigp)
+
+
 def attr_laws(a: Attribute, asn4: bool = True) -> tuple[list[LawFail], dict]:
     fails: list[LawFail] = []
     facts: dict = {}
-    neg = Sess.get(False, asn4)
+    aigp = klass_name(a) == 'AIGP'  # only sent to / accepted from a peer configured for it
+    neg = Sess.get(False, asn4, aigp)
     try:
         b = bytes(a.pack_attribute(neg))
     except Exception as e:  # noqa: BLE001
@@ -309,6 +326,16 @@ def attr_laws(a: Attribute, asn4: bool = True) -> tuple[list[LawFail], dict]:
     if not b:
         facts['empty'] = True
         return fails, facts
+    # the daemon decodes for many sessions in one process: every other time, ANOTHER session sees these bytes first
+    # (whatever it makes of them); what this session decodes is a function of the bytes and of ITS parameters
+    _turn[0] += 1
+    first_elsewhere = _turn[0] % 2 == 0
+    if first_elsewhere:
+        facts['other-session-first'] = True
+        try:
+            decode_attr_block(b, other_session(b[1], asn4, aigp))
+        except Exception:  # noqa: BLE001
+            pass
     try:
         coll = decode_attr_block(b, neg)
     except Exception as e:  # noqa: BLE001
@@ -366,6 +393,19 @@ def attr_laws(a: Attribute, asn4: bool = True) -> tuple[list[LawFail], dict]:
         fails.append(LawFail('pack(unpack(b))-raises', err_name(e), b))
     if type(y) is not type(a):
         facts['class-change'] = f'{klass_name(a)} -> {klass_name(y)}'
+    if not fails and not first_elsewhere:
+        # ... and the other order: another session decodes the bytes now, this one decodes them again
+        try:
+            decode_attr_block(b, other_session(b[1], asn4, aigp))
+        except Exception:  # noqa: BLE001
+            pass
+        try:
+            again = decode_attr_block(b, neg)
+            z = again[code] if code in again else None
+            if z is None or type(z) is not type(y) or bytes(z.pack_attribute(neg)) != bytes(y.pack_attribute(neg)):
+                fails.append(LawFail('decode-depends-on-another-session', f'{y} | {z}', b))
+        except Exception as e:  # noqa: BLE001
+            fails.append(LawFail('decode-depends-on-another-session', err_name(e), b))
     return fails, facts
 
 
